@@ -14,7 +14,7 @@
 #define MAXLEN 4
 #endif
 static const unsigned char ALPHA[] = {0x00, 0x18, 0x20, 0x40, 0x41, 0x42, 0x5f, 0x60, 0x61, 0x62, 0x7f, 0x80, 0x81, 0x82, 0x9f,
-                                      0xa0, 0xa1, 0xbf, 0xc0, 0xf4, 0xf6, 0xf9, 0xfa, 0xff, 0x01, 0x39};
+                                      0xa0, 0xa1, 0xbf, 0xc0, 0xc1, 0xf4, 0xf6, 0xf9, 0xfa, 0xff, 0x01, 0x39};
 #define NALPHA (sizeof ALPHA / sizeof ALPHA[0])
 
 static long live, requests, refuse_at;
